@@ -15,7 +15,7 @@ pub struct OsetEngine;
 
 const BATCH: u64 = 32;
 
-trait Elem: Ord + Clone + Debug {
+trait Elem: Ord + Clone + Debug + std::hash::Hash {
     fn gen(rng: &mut Rng) -> Self;
     const NAME: &'static str;
 }
@@ -251,6 +251,38 @@ fn run_history<T: Elem>(w: &mut Worker, rng: &mut Rng, n_ops: usize) {
                     fail(w, "ordering-laws-broken", format!("cmp(a,b) = {c:?}, cmp(b,a) = {:?}, equal sets: {eq_model}", b.cmp(a)), &log);
                     return;
                 }
+                // the comparison operators and the hash follow == and cmp
+                let ops_ok = (a < b) == (c == Ordering::Less)
+                    && (a <= b) == (c != Ordering::Greater)
+                    && (a > b) == (c == Ordering::Greater)
+                    && (a >= b) == (c != Ordering::Less)
+                    && (a != b) == !eq_model;
+                if !ops_ok {
+                    fail(w, "comparison-operators-disagree-with-cmp", format!("cmp(a,b) = {c:?}, a<b {}, a<=b {}, a>b {}, a>=b {}, a!=b {}", a < b, a <= b, a > b, a >= b, a != b), &log);
+                    return;
+                }
+                let h = |s: &Oset<T>| {
+                    use std::hash::{Hash, Hasher};
+                    let mut hs = std::collections::hash_map::DefaultHasher::new();
+                    s.hash(&mut hs);
+                    hs.finish()
+                };
+                // (Hash and Debug are not part of the property: observed and counted, never a verdict)
+                if eq_model {
+                    w.count(if h(a) == h(b) && h(a) == h(&ra) { "observed:equal-sets-hash-equally" } else { "observed:equal-sets-hash-differently" });
+                }
+                w.count(if format!("{a:?}") == format!("{ra:?}") { "observed:debug-independent-of-history" } else { "observed:debug-depends-on-history" });
+                if a.clone() != *a {
+                    fail(w, "clone-differs-from-original", format!("{a:?}"), &log);
+                    return;
+                }
+                // transitivity through a third live set
+                let l = rng.below(k);
+                let (bc, ac) = (b.cmp(&sets[l]), a.cmp(&sets[l]));
+                if (c != Ordering::Greater && bc != Ordering::Greater && ac == Ordering::Greater) || (c != Ordering::Less && bc != Ordering::Less && ac == Ordering::Less) {
+                    fail(w, "ordering-not-transitive", format!("cmp(a,b) = {c:?}, cmp(b,c) = {bc:?}, cmp(a,c) = {ac:?}"), &log);
+                    return;
+                }
                 if c == models[i].cmp(&models[j]) {
                     w.count("order-is-lexicographic-by-sorted-elements");
                 }
@@ -329,7 +361,7 @@ impl Engine for OsetEngine {
         json!({"class": "oset-history", "batch": idx, "sub": sub})
     }
     fn rule(&self, _prop: &str) -> String {
-        "histories of 5-200 operations (new, from_iter, insert, extend, clone, contains, extend-from-other-set, pair comparison; from_iter and extend receive their elements through 8 iterator shapes: exact size hint, lower bound 0, no hint, chain, flat_map, from_fn, peekable, fuse) over 1-4 live sets, element types u8 (8 values), i64 (with extremes), (u8,String), Reverse<u16>, kiki's Symbol, StateItem and Transition; inputs with duplicates, ascending and descending runs, empties. After every operation every live set is compared with a std BTreeSet model: borrowed, owned and deref iteration strictly increasing and equal to the model, contains, len; pair comparisons check == against set equality, cmp against sets rebuilt along different histories from the same elements, and the order laws (antisymmetry, Equal iff equal). One evaluation = one history (or one pipeline run with the H3 invariant hook armed on the real element types). Distinct non-trivial = distinct histories with >= 10 operations.".into()
+        "histories of 5-200 operations (new, from_iter, insert, extend, clone, contains, extend-from-other-set, pair comparison; from_iter and extend receive their elements through 8 iterator shapes: exact size hint, lower bound 0, no hint, chain, flat_map, from_fn, peekable, fuse) over 1-4 live sets, element types u8 (8 values), i64 (with extremes), (u8,String), Reverse<u16>, kiki's Symbol, StateItem and Transition; inputs with duplicates, ascending and descending runs, empties. After every operation every live set is compared with a std BTreeSet model: borrowed, owned and deref iteration strictly increasing and equal to the model, contains, len; pair comparisons check == against set equality, cmp against sets rebuilt along different histories from the same elements, and the order laws (antisymmetry, Equal iff equal, transitivity through a third set, the operators < <= > >= != and partial_cmp agreeing with cmp, a clone equal to its original; Hash and Debug consistency is observed and counted but is not part of the property). One evaluation = one history (or one pipeline run with the H3 invariant hook armed on the real element types). Distinct non-trivial = distinct histories with >= 10 operations.".into()
     }
     fn floors(&self, _prop: &str, _tier: Tier, agg: &Agg) -> Vec<String> {
         let mut out = vec![];
